@@ -65,7 +65,10 @@ def _on_cpu_alarm(_sig, _frm):
 
 
 K_XOR = "int-cycle-ge3-no-free-reg:xor-swaps-give-inverse-rotation"
-K_ROOT = "cycle-scratch-is-tree-root-source:non-destination-source-register-clobbered"
+K_ROOT = "cycle-scratch-is-tree-root:read-only-source-register-clobbered"
+K_ROOT_SELF = "cycle-scratch-is-tree-root:self-moved-destination-clobbered"
+K_ROOT_ZERO = "cycle-scratch-is-tree-root:x0-taken-as-scratch"
+K_ZERO = "x0-destination-enters-move-graph:"
 
 
 # ------------------------------------------------------------------ reference model of the move list
@@ -116,6 +119,10 @@ class Ref:
         self.tree_into_cycle = any(s in self.cycle_nodes and any(x not in self.cycle_nodes for x in ds)
                                    for s, ds in succ.items())
         self.pure_sources = {s for s in succ if s not in self.pred}      # roots: read, never written by a real move
+        self.self_moved = {rm.phys(k, s) for k, s, d, w in self.moves if rm.phys(k, s) == rm.phys(k, d)}
+        # registers that are read by some move and written by none (sources of moves into x0 included)
+        self.read_only_sources = {rm.phys(k, s) for k, s, d, w in self.moves} - self.dst_phys
+        self.sources_nonself = {rm.phys(k, s) for k, s, d, w in self.moves if rm.phys(k, s) != rm.phys(k, d)}
         depth = {}
         for d in self.pred:
             n, cur, hops = 0, d, set()
@@ -268,7 +275,7 @@ def initial_state(ref: Ref, variant: int, xlen: int, flen: int):
 
 
 class CaseResult:
-    __slots__ = ("status", "detail", "problems", "ref", "ops", "mnemonics", "module_text", "fail_msg")
+    __slots__ = ("status", "detail", "problems", "ref", "ops", "mnemonics", "module_text", "fail_msg", "wrong_regs", "clobbered", "final_of")
 
     def __init__(self, ref):
         self.status = None      # "lowered" | "failed" | "rejected" | "crash"
@@ -279,9 +286,25 @@ class CaseResult:
         self.mnemonics = ()
         self.module_text = ""
         self.fail_msg = ""
+        self.wrong_regs = set()
+        self.clobbered = set()
+        self.final_of = {}
 
 
 def run_case(moves, free, counters=None) -> CaseResult:
+    res = _run_case_raw(moves, free, counters)
+    if res.problems:
+        rekey_zero_family(res.ref, res)
+        seen, out = set(), []
+        for k, s in res.problems:          # one entry per key, first summary kept
+            if k not in seen:
+                seen.add(k)
+                out.append((k, s))
+        res.problems = out
+    return res
+
+
+def _run_case_raw(moves, free, counters=None) -> CaseResult:
     X = _xdsl()
     C = counters if counters is not None else {}
 
@@ -446,19 +469,19 @@ def run_case(moves, free, counters=None) -> CaseResult:
                 res.problems.append(("stale-read-in-emitted-code",
                                      f"[{tag}] {m.stale_reads[0][0]} reads {m.stale_reads[0][1]} after it was overwritten"))
             if wrong_dst or clobbered:
-                key, summ = classify(ref, init, final, wrong_dst, clobbered, res, tag)
-                res.problems.append((key, summ))
+                wrong_regs = {p for _i, p in wrong_dst}
+                res.wrong_regs = wrong_regs
+                res.clobbered = set(clobbered)
+                res.final_of = {p: final.get(p) for p in clobbered}
+                for kind in ("int", "float"):
+                    wk = {p for p in wrong_regs if ref.kind_of(p) == kind}
+                    ck = {p for p in clobbered if ref.kind_of(p) == kind}
+                    if wk or ck:
+                        res.problems.append(classify_kind(ref, kind, init, final, wk, ck, res, tag))
             if res.problems:
                 break
         if res.problems:
             break
-    # de-duplicate keys, keep first summary
-    seen, out = set(), []
-    for k, s in res.problems:
-        if k not in seen:
-            seen.add(k)
-            out.append((k, s))
-    res.problems = out
     return res
 
 
@@ -470,46 +493,97 @@ def pname(p):
     return ("j_" if p[0] == "xj" else "fj_") + str(p[1])
 
 
-def classify(ref: Ref, init, final, wrong_dst, clobbered, res, tag):
-    """Mechanism key for a wrong final state.  Known wrong-behaviour models are CONFIRMED on the observed state
-    before their key is used; everything else gets a generic key (and so is a VIOLATION)."""
-    geti = lambda p: 0 if p == ("x", 0) else init[p]
-    getf = lambda p: 0 if p == ("x", 0) else final.get(p)
-    wrong_regs = {p for _i, p in wrong_dst}
-    desc = (f"[{tag}] wrong destinations {sorted(pname(p) for p in wrong_regs)} clobbered {sorted(pname(p) for p in clobbered)} "
-            f"shape={ref.shape()} free={[f[1] for f in ref.free]}")
-    # --- model 1: int cycle of length >= 3 rotated the wrong way round by the xor-swap chain
-    if wrong_regs and not clobbered and "xor" in res.mnemonics and not ref.has_free("int"):
-        bad_cycles = [c for c in ref.cycles if any(n in wrong_regs for n in c)]
-        on_cycles = {n for c in bad_cycles for n in c}
-        ok = bool(bad_cycles) and wrong_regs <= on_cycles
-        for c in bad_cycles:
-            if len(c) < 3 or ref.kind_of(c[0]) != "int":
+def classify_kind(ref: Ref, kind, init, final, wrong, clob, res, tag):
+    """Mechanism key for a wrong final state of one register file.  `wrong` = destinations holding another value,
+    `clob` = changed registers that are neither destinations nor designated free registers.  A known wrong-behaviour
+    model is CONFIRMED on the observed state before its key is used; everything else gets a generic key (VIOLATION)."""
+    X0 = ("x", 0)
+    geti = lambda p: 0 if p == X0 else init[p]
+    getf = lambda p: 0 if p == X0 else final.get(p)
+    desc = (f"[{tag}] {kind}: wrong destinations {sorted(pname(p) for p in wrong)} clobbered "
+            f"{sorted(pname(p) for p in clob)} shape={ref.shape()} free={[f[1] for f in ref.free]}")
+    cycles = [c for c in ref.cycles if ref.kind_of(c[0]) == kind]
+    members = {n for c in cycles for n in c}
+    no_free = not ref.has_free(kind)
+    in_cycle_vals = {init[n] for n in members}
+    # --- model 1: int cycle of length >= 3, no scratch: the xor-swap chain rotates it the wrong way round
+    if kind == "int" and wrong and not clob and no_free and "xor" in res.mnemonics:
+        bad = [c for c in cycles if any(n in wrong for n in c)]
+        ok = bool(bad) and wrong <= {n for c in bad for n in c}
+        for c in bad:
+            if len(c) < 3:
                 ok = False
-                break
-            # c[i] <- c[i+1] expected; the inverse rotation leaves c[i+1] holding the initial value of c[i]
+            # c[i] <- c[i+1] is wanted; the inverse rotation leaves c[i+1] holding the initial value of c[i]
             for i, n in enumerate(c):
-                src = c[(i + 1) % len(c)]
-                if getf(src) != geti(n):
+                if getf(c[(i + 1) % len(c)]) != geti(n):
                     ok = False
         if ok:
-            return K_XOR, desc + f" cycle lengths {[len(c) for c in bad_cycles]}"
-    # --- model 2: the root of a move tree (a source that is no destination) is taken as scratch for a cycle
-    if clobbered and not wrong_regs:
-        ok = True
-        for p in clobbered:
-            kind = ref.kind_of(p)
-            members = [n for c in ref.cycles if ref.kind_of(c[0]) == kind for n in c]
-            if not (p in ref.pure_sources and p != ("x", 0) and members and not ref.has_free(kind)
-                    and final.get(p) in {init[n] for n in members}):
-                ok = False
-        if ok and len({ref.kind_of(p) for p in clobbered}) == len(clobbered):
-            return K_ROOT, desc
-    if wrong_regs and clobbered:
+            return K_XOR, desc + f" cycle lengths {[len(c) for c in bad]}"
+    # --- model 2: the pass takes the ROOT of a move tree (a register that is only read) as scratch for a cycle of
+    #     the same kind when no free register was designated
+    if members and no_free:
+        if len(clob) == 1 and not wrong:
+            (p,) = clob
+            if p in ref.read_only_sources and p != X0 and final.get(p) in in_cycle_vals:
+                return K_ROOT, desc
+        if len(wrong) == 1 and not clob:
+            (p,) = wrong
+            if p in ref.self_moved and p in ref.sources_nonself and final.get(p) in in_cycle_vals:
+                return K_ROOT_SELF, desc
+        if kind == "int" and wrong and not clob and X0 in ref.succ and wrong <= members \
+                and all(getf(p) == 0 for p in wrong) and len(wrong) <= len(cycles):
+            return K_ROOT_ZERO, desc
+    if wrong and clob:
         return "wrong-destination-value-and-clobbered-register", desc
-    if wrong_regs:
+    if wrong:
         return "wrong-destination-value", desc
     return "clobbered-register", desc
+
+
+_ZERO_CRASHES = {"crash:AssertionError:ParallelMovPattern.match_and_rewrite": "crash-AssertionError",
+                 "crash:KeyError:ParallelMovPattern.match_and_rewrite": "crash-KeyError",
+                 "crash:ValueError:SSAValue.erase": "crash-ValueError-erase-with-uses"}
+
+
+def rekey_zero_family(ref: Ref, res):
+    """Known model: a move INTO x0 is put into the move graph like any other destination (the verifier allows x0
+    as a repeated destination).  Preconditions are structural facts of the case; the observed manifestation is
+    part of the key."""
+    X0 = ("x", 0)
+    zero_dst = [(k, s, d, w) for k, s, d, w in ref.moves if k == "int" and rm.phys(k, d) == X0]
+    real = [m for m in zero_dst if rm.phys(m[0], m[1]) != X0]
+    if not real:
+        return
+    repeated = len(zero_dst) >= 2                 # two result slots share the key `zero` in the pass's index
+    through = X0 in ref.succ                      # x0 also feeds a real destination: x0 looks like an inner node
+    out = []
+    for key, summ in res.problems:
+        new = None
+        if repeated and key in _ZERO_CRASHES:
+            new = _ZERO_CRASHES[key]
+        elif repeated and key == "hang:pass-does-not-terminate":
+            new = "hang"
+        elif repeated and key == "stale-read-in-emitted-code":
+            new = "stale-read"
+        elif through and key == "wrong-destination-value":
+            # registers between x0 and a source of a move into x0 form a pseudo cycle through x0
+            pseudo = set()
+            for k, s, d, w in real:
+                path, cur = [], rm.phys(k, s)
+                while cur in ref.pred and cur not in path:
+                    path.append(cur)
+                    cur = ref.pred[cur][0]
+                if cur == X0:
+                    pseudo.update(path)
+            if res.wrong_regs and res.wrong_regs <= pseudo:
+                new = "wrong-destination"
+        elif through and key == "clobbered-register" and not ref.has_free("int") and len(res.clobbered) == 1:
+            # the pseudo cycle through x0 is "broken" with a tree root as scratch (see K_ROOT): it receives x0's value
+            (p,) = res.clobbered
+            if p in ref.read_only_sources and p != X0 and res.final_of.get(p) == 0:
+                new = "tree-root-taken-as-scratch"
+        out.append((K_ZERO + new, summ) if new else (key, summ))
+    res.problems = out
 
 
 # ------------------------------------------------------------------ workload
@@ -668,3 +742,163 @@ def gen_random(rng: random.Random):
         moves += km
     rng.shuffle(moves)
     return moves, free
+
+
+# ------------------------------------------------------------------ plan / work / finish
+def _cases_for(job):
+    cls = job["class"]
+    if cls == "E":
+        return gen_exhaustive(job["kind"], job["n"])
+    if cls == "Z":
+        return gen_zero(job["n"])
+    if cls == "M":
+        return gen_mixed(job["n"], [tuple(p) for p in job["width_pairs"]])
+    if cls == "D":
+        return gen_directed()
+    if cls == "R":
+        rng = random.Random(job["seed"])
+        return (gen_random(rng) for _ in range(job["count"]))
+    if cls == "one":
+        return iter([([tuple(m) for m in job["moves"]], [tuple(f) for f in job["free"]])])
+    raise ValueError(cls)
+
+
+def plan(tier, seed):
+    jobs = []
+
+    def shards(job, n):
+        for i in range(n):
+            jobs.append(dict(job, shard=i, nshards=n))
+
+    if tier == "quick":
+        shards({"class": "E", "kind": "int", "n": 3}, 4)
+        shards({"class": "E", "kind": "float", "n": 3}, 4)
+        shards({"class": "Z", "n": 2}, 1)
+        shards({"class": "M", "n": 2, "width_pairs": [["32", "32"], ["64", "64"], ["32", "alt"]]}, 8)
+        shards({"class": "D"}, 10)
+        for r in range(16):
+            jobs.append({"class": "R", "seed": seed * 100003 + r, "count": 700, "shard": 0, "nshards": 1})
+    else:
+        shards({"class": "E", "kind": "int", "n": 4}, 40)
+        shards({"class": "E", "kind": "float", "n": 4}, 40)
+        shards({"class": "Z", "n": 3}, 16)
+        shards({"class": "M", "n": 2, "width_pairs": [[a, b] for a in WIDTH_MODES for b in WIDTH_MODES]}, 24)
+        shards({"class": "D"}, 10)
+        for r in range(64):
+            jobs.append({"class": "R", "seed": seed * 100003 + 1000 + r, "count": 4000, "shard": 0, "nshards": 1})
+    return jobs
+
+
+def work(job):
+    rm.selftest()
+    res = {"evaluations": 0, "nontrivial": [], "samples": [], "counters": {}, "sets": {}, "violations": [], "extra": {}}
+    C = res["counters"]
+    S = {"shapes_lowered": set(), "failure_messages": set(), "mnemonics": set(), "rejected_reasons": set(),
+         "classes": set()}
+
+    def bump(k, n=1):
+        C[k] = C.get(k, 0) + n
+
+    cls = job["class"]
+    S["classes"].add(cls + (":" + job["kind"] + str(job["n"]) if cls == "E" else ""))
+    per_key = {}
+    sh, nsh = job.get("shard", 0), job.get("nshards", 1)
+    for idx, (moves, free) in enumerate(_cases_for(job)):
+        if idx % nsh != sh:
+            continue
+        res["evaluations"] += 1
+        bump("cases_class_" + cls)
+        r = run_case(moves, free, C)
+        ref = r.ref
+        if r.status == "rejected":
+            S["rejected_reasons"].add(r.detail)
+            continue
+        odd = any(w not in (32, 64) for *_m, w in moves)
+        if r.status == "failed":
+            S["failure_messages"].add(r.fail_msg)
+            if ref.infeasible():
+                bump("failed_float_cycle_without_free_float_register")
+            elif odd:
+                bump("failed_unsupported_width")
+            else:
+                bump("failed_although_a_correct_sequence_exists")
+            continue
+        if r.status == "lowered":
+            S["mnemonics"].update(r.mnemonics)
+            if not r.problems:
+                shape = ref.shape()
+                S["shapes_lowered"].add(shape)
+                bump("lowered_and_correct")
+                if ref.pred:
+                    res["nontrivial"].append(shash((ref.moves, ref.free))[:11])
+                for c in ref.cycles:
+                    k = ref.kind_of(c[0])
+                    bump(f"correct_{k}_cycle_len{min(len(c), 5)}{'plus' if len(c) >= 5 else ''}_"
+                         f"{'with' if ref.has_free(k) else 'without'}_free_register")
+                if len(ref.cycles) > 1:
+                    bump("correct_several_cycles")
+                if ref.tree_into_cycle:
+                    bump("correct_tree_hanging_off_cycle")
+                if ref.fanout > 1:
+                    bump("correct_fanout")
+                if ref.selfmoves:
+                    bump("correct_with_self_moves")
+                if ref.zero_dsts:
+                    bump("correct_with_zero_destination")
+                if "zero-src" in shape:
+                    bump("correct_with_zero_source")
+                if "mixed" in shape:
+                    bump("correct_mixed_int_float")
+                if odd:
+                    bump("correct_with_unsupported_width_on_unemitted_move")
+                if len(res["samples"]) < 2 and ref.cycles:
+                    res["samples"].append({"moves": [list(m) for m in ref.moves], "free": [list(f) for f in ref.free],
+                                           "lowered_to": r.module_text.splitlines()[2:-3]})
+        for key, summ in r.problems:
+            bump("violating_cases")
+            bump("violating:" + key)
+            n = per_key.get(key, 0)
+            per_key[key] = n + 1
+            if n < 2:
+                res["violations"].append({
+                    "key": key, "summary": summ,
+                    "witness": {"ir": case_text(ref), "after_pass": r.module_text,
+                                "replay_job": {"class": "one", "moves": [list(m) for m in ref.moves],
+                                               "free": [list(f) for f in ref.free]}}})
+    res["sets"] = {k: sorted(v) for k, v in S.items()}
+    return res
+
+
+def finish(agg, tier):
+    inc = []
+    c = agg.counters
+    need = {
+        "lowered_and_correct": 5000,
+        "machine_runs": 10000,
+        "destinations_compared": 20000,
+        "bystander_registers_compared": 100000,
+        "user_operands_checked": 10000,
+        "correct_int_cycle_len2_with_free_register": 50,
+        "correct_int_cycle_len2_without_free_register": 50,
+        "correct_float_cycle_len2_with_free_register": 50,
+        "correct_int_cycle_len3_with_free_register": 50,
+        "correct_float_cycle_len3_with_free_register": 50,
+        "correct_tree_hanging_off_cycle": 50,
+        "correct_fanout": 200,
+        "correct_with_self_moves": 200,
+        "correct_mixed_int_float": 200,
+        "correct_with_zero_source": 20,
+        "correct_with_zero_destination": 20,
+        "failed_float_cycle_without_free_float_register": 50,
+        "emitted:xor": 100, "emitted:mv": 1000, "emitted:fmv.s": 500, "emitted:fmv.d": 500,
+    }
+    for k, n in need.items():
+        if c.get(k, 0) < n:
+            inc.append(f"{k} = {c.get(k, 0)} < {n}: deciding monitor not reached often enough")
+    feasible_failed = c.get("failed_although_a_correct_sequence_exists", 0)
+    if feasible_failed * 20 > c.get("pass_applications", 1):
+        inc.append(f"pass reported failure on {feasible_failed} cases for which a correct sequence exists (> 5 %)")
+    bounds = ({"int_registers": 3, "float_registers": 3, "zero_class_registers": 2, "mixed_registers_per_kind": 2}
+              if tier == "quick" else
+              {"int_registers": 4, "float_registers": 4, "zero_class_registers": 3, "mixed_registers_per_kind": 2})
+    return {"inconclusive": inc, "coverage": {"exhaustive": True, "bounds": bounds}}
